@@ -74,6 +74,8 @@ def sizes(tier, cfg, strat, t, penc):
         s = list(range(1, 10)) + [16, 17]
         if t == "f64" or (strat, penc) in (("BlockLUPiv", "vec"), ("SimpleLU", "none")):
             s.append(33)
+        if t == "f64" and strat == "BlockLU" and cfg.isa == "S2":
+            s.append(65)       # the block dispatcher has an overload of its own above 64: one instantiation (about half a minute of compile time)
         return s
     s = list(range(1, 13)) + [16, 17, 32, 33]
     if strat.startswith("SimpleLU"):
@@ -140,7 +142,7 @@ def finalize(run, cov):
 
 def bounds(tier):
     return {
-        "quick": "n in 1..9,16,17 (+33: every strategy/encoding in f64, BlockLUPiv/vec and SimpleLU in f32) x {BlockLU, BlockLUPiv, SimpleLU, SimpleLUPiv} x "
+        "quick": "n in 1..9,16,17 (+33: every strategy/encoding in f64, BlockLUPiv/vec and SimpleLU in f32; +65: BlockLU f64 on S2) x {BlockLU, BlockLUPiv, SimpleLU, SimpleLUPiv} x "
                  "P as vector and as matrix x {f64,f32} x groups dom{dd,cd} / cond{spd 10,1e3,(1e5); orth; gen 10,1e3,(1e5)} / perm (pivoted: all permutations n<=4, "
                  "else reversal, rotations, adjacent transpositions of cd; four of dd, spd10); reconstruct on every returned factorisation; expression argument "
                  "n in {2,3,5,9} f64; S2, A2, A5",
